@@ -633,7 +633,7 @@ def r55_window(repo, ctx):
               'GenericModel.solve does not pass (initialTime, X0, finalTime) to the solver / setTimeInfo(t, simTime)')
     # setup precedes everything
     body = U.body_without_docstring(f)
-    first = body[0] if body else None
+    first = U.first_action_on(f) or (body[0] if body else None)
     ctx.check(isinstance(first, ast.Expr) and isinstance(first.value, ast.Call) and U.call_name(first.value) == 'self.setup', 'R5.5', GM, q, first or f,
               'setup() is the first action of solve()', 'setup() is not called first in solve()')
 
